@@ -16,26 +16,25 @@ Definition gvk_selected (x sel : gvk) : bool :=
   (String.eqb (g_version sel) "" || String.eqb (g_version x) (g_version sel)) &&
   (String.eqb (g_kind sel) "" || String.eqb (g_kind x) (g_kind sel)).
 
-Section Ids.
-  (* Gvk.IsClusterScoped (openapi lookup): external *)
-  Variable cluster_scoped : gvk -> bool.
+(* ResId.EffectiveNamespace. Whether an id counts as cluster scoped is NOT a function of its gvk: the
+   flag Gvk.isClusterScoped is set only by resid.NewGvk (openapi lookup); ids whose Gvk is a struct
+   literal or was unmarshalled — the previous ids of utils.PrevIds, every id of utils.MakeResIds, the
+   ids inside selectors — carry false. [cs] is that flag. *)
+Definition effective_ns (cs : bool) (id : resid) : string :=
+  if cs then "_non_namespaceable_"
+  else if String.eqb (id_ns id) "" || String.eqb (id_ns id) "default" then "default"
+  else id_ns id.
 
-  Definition effective_ns (id : resid) : string :=
-    if cluster_scoped (id_gvk id) then "_non_namespaceable_"
-    else if String.eqb (id_ns id) "" || String.eqb (id_ns id) "default" then "default"
-    else id_ns id.
+(* ResId.IsSelectedBy(selector) for ids and selectors built without NewGvk (replacements) *)
+Definition id_selected_by (id sel : resid) : bool :=
+  (String.eqb (id_name sel) "" || String.eqb (id_name sel) (id_name id)) &&
+  (String.eqb (id_ns sel) "" || String.eqb (effective_ns false sel) (effective_ns false id)) &&
+  gvk_selected (id_gvk id) (id_gvk sel).
 
-  (* ResId.IsSelectedBy(selector) *)
-  Definition id_selected_by (id sel : resid) : bool :=
-    (String.eqb (id_name sel) "" || String.eqb (id_name sel) (id_name id)) &&
-    (String.eqb (id_ns sel) "" || String.eqb (effective_ns sel) (effective_ns id)) &&
-    gvk_selected (id_gvk id) (id_gvk sel).
-
-  (* ResId.IsEmpty *)
-  Definition id_is_empty (id : resid) : bool :=
-    String.eqb (g_group (id_gvk id)) "" && String.eqb (g_version (id_gvk id)) "" &&
-    String.eqb (g_kind (id_gvk id)) "" && String.eqb (id_name id) "" && String.eqb (id_ns id) "".
-End Ids.
+(* ResId.IsEmpty *)
+Definition id_is_empty (id : resid) : bool :=
+  String.eqb (g_group (id_gvk id)) "" && String.eqb (g_version (id_gvk id)) "" &&
+  String.eqb (g_kind (id_gvk id)) "" && String.eqb (id_name id) "" && String.eqb (id_ns id) "".
 
 (* ---------- ids of a resource document ---------- *)
 (* IsYNodeNilOrEmpty on a present node *)
@@ -121,9 +120,11 @@ Definition make_res_ids (obj : node) : res (list resid) :=
   match prev_ids_opt obj with Some l => Ok (cur_id obj :: l) | None => Err end.
 Definition resource_prev_ids (obj : node) : res (list resid) :=
   match prev_ids_opt obj with Some l => Ok l | None => Panic end.
-Definition org_id (obj : node) : res resid :=
+(* Resource.OrgId with the cluster-scope flag of the id it returns: a previous id never carries it,
+   the current id (resid.GvkFromNode = NewGvk) carries the openapi answer [ccs] *)
+Definition org_id (ccs : bool) (obj : node) : res (resid * bool) :=
   do l <- resource_prev_ids obj;
-  Ok (match l with x :: _ => x | [] => cur_id obj end).
+  Ok (match l with x :: _ => (x, false) | [] => (cur_id obj, ccs) end).
 
 (* ---------- types.Selector / SelectorRegex ---------- *)
 Record selector := mkSel {
@@ -142,7 +143,7 @@ Record selrx := mkSelRx {
 
 Section Select.
   Variable parse : string -> option re.          (* regexp.Compile *)
-  Variable cluster_scoped : gvk -> bool.
+  Variable cluster_scoped : gvk -> bool.         (* openapi: is this gvk certainly cluster scoped *)
 
   Definition compile_anchored (p : string) : res re :=
     match anchor_text p with
@@ -176,12 +177,14 @@ Section Select.
 
   (* does Select keep this resource?  Err when a selector text does not parse and the resource got that far *)
   Definition select_one (s : selector) (rx : selrx) (obj : node) : res bool :=
-    do org <- org_id obj;
+    let ccs := cluster_scoped (gvk_of obj) in
+    do orgc <- org_id ccs obj;
+    let org := fst orgc in
     let cur := cur_id obj in
     let pns := id_ns (sel_id s) in
     let pn := id_name (sel_id s) in
-    if negb (match_opt pns (rx_ns rx) (effective_ns cluster_scoped org)) &&
-       negb (match_opt pns (rx_ns rx) (effective_ns cluster_scoped cur)) then Ok false
+    if negb (match_opt pns (rx_ns rx) (effective_ns (snd orgc) org)) &&
+       negb (match_opt pns (rx_ns rx) (effective_ns ccs cur)) then Ok false
     else if negb (match_opt pn (rx_name rx) (id_name org)) &&
             negb (match_opt pn (rx_name rx) (id_name cur)) then Ok false
     else if negb (match_gvk s rx (gvk_of obj)) then Ok false
